@@ -95,16 +95,27 @@ func c53Keys() []ec.Key { return ec.Keys(6) }
 
 const c53Realm = `package %s
 
-import "chain/params"
+import (
+	"chain/params"
+	"chain/runtime"
+	"strconv"
+	"time"
+)
 
 var N int
 var Log []string
 
-func init() { N = %d }
+func init() { N = %d; note("init") }
+
+// note records what the transaction sees of its block context, so that the
+// per-tx metadata overrides (chain id, height, time) become part of the state.
+func note(what string) {
+	Log = append(Log, what+"@"+runtime.ChainID()+"/"+strconv.FormatInt(runtime.ChainHeight(), 10)+"/"+strconv.FormatInt(time.Now().Unix(), 10))
+}
 
 func Add(cur realm, n int) int {
 	N += n
-	Log = append(Log, "add")
+	note("add")
 	return N
 }
 
@@ -593,7 +604,6 @@ func c53Exec(ctx *vk.Ctx, c c53Case) error {
 	}
 	return nil
 }
-
 
 func TestC53_GenesisModes(t *testing.T) {
 	vk.Run(t, vk.Spec[c53Case]{
